@@ -148,6 +148,12 @@ def loader(ctx):
                 if any(d.instr is dn[0] for d in v["defs"]) or any(
                         d.instr is not None and d.instr.kind == "call" and d.instr.callee and d.instr.callee.endswith("HashMap::new") for d in v["defs"]):
                     kat = fd.slice_operand_pure(c, c.args[1])["atoms"]
+                    looked_up = any(a.startswith("call:") and a.endswith("as core::ops::index::Index>::index") and "HashMap" in a for a in kat) \
+                        or any(a.endswith("HashMap::get") for a in kat)
+                    if not looked_up:
+                        ok = False
+                        detail = "the matrix key at %s is not resolved through the location lookup (labels of deadHeadTrips.indices), " \
+                                 "e.g. taken by position" % c.line()
                     if JF("DeadHeadTrips", "indices") in kat and JF("JsonInput", "locations") not in kat - {JF("JsonInput", "locations")}:
                         keyed += 1
                     elif any(d.instr is dn[0] for d in v["defs"]) or JF("DeadHeadTrips", "indices") not in kat:
@@ -259,6 +265,7 @@ def timing_rule(ctx):
     h_same = N("shunting_duration_between_activities_if_no_dead_head_trip")
     h_dht = N("shunting_duration_between_activities_if_dead_head_trip")
     if h_same in ctx.prog.bodies and h_dht in ctx.prog.bodies:
+        shunting_case_tables(ctx)
         getter(ctx, "R3.same-location-shunting", h_same,
                [field(SH, "minimal")], [field(SH, "dead_head_trip")], "without a dead-head trip only the minimal shunting time applies")
         getter(ctx, "R3.dead-head-shunting", h_dht,
@@ -270,6 +277,40 @@ def timing_rule(ctx):
             1: ("from", [call(ND("end_location")), "param:2"], [call(ND("start_location")), "param:3"]),
             2: ("to", [call(ND("start_location")), "param:3"], [call(ND("end_location")), "param:2"]),
         })
+
+
+def shunting_case_tables(ctx):
+    """exhaustive case tables over the kinds of the two nodes (abstract interpretation of the match)"""
+    from .. import optabs
+    node = ctx.prog.adts.get(NODE)
+    if node is None:
+        return
+    names = [v["name"] for v in node["variants"]]
+    nondepot = {i for i, n in enumerate(names) if n in ("Service", "Maintenance")}
+    FM, FD = field(SH, "minimal"), field(SH, "dead_head_trip")
+    for key, want, text in (
+            (N("shunting_duration_between_activities_if_no_dead_head_trip"), lambda a, b: (1 if a in nondepot and b in nondepot else 0, 0),
+             "at the same location the minimal shunting time applies for every pair of non-depot activities (4 of 16 kind pairs), nothing otherwise"),
+            (N("shunting_duration_between_activities_if_dead_head_trip"), lambda a, b: (0, (1 if a in nondepot else 0) + (1 if b in nondepot else 0)),
+             "with a dead-head trip the dead-head shunting time applies once per non-depot side (16 kind pairs)")):
+        o, fd = ctx.require_fn("R3.%s.case-table" % ("same-location" if "no_dead" in key else "dead-head"), "T1+abs", key, text)
+        if fd is None:
+            continue
+        bad, und = [], []
+        for a in range(len(names)):
+            for b in range(len(names)):
+                recs = optabs.enum_cases(fd.body, {2: a, 3: b})
+                got = {(r["reads"].get(FM, 0), r["reads"].get(FD, 0)) for r in recs}
+                if not recs:
+                    und.append((names[a], names[b]))
+                elif got != {want(a, b)}:
+                    bad.append("(%s, %s): reads (minimal, dead-head shunting) %s times, expected %s" % (names[a], names[b], sorted(got), want(a, b)))
+        if bad:
+            ctx.bad(o, "; ".join(bad[:3]))
+        elif und:
+            ctx.undecided(o, "no returning path for %s" % und[:3])
+        else:
+            ctx.ok(o, "all 16 kind pairs as documented")
 
 
 def turnaround_branches(ctx, md):
